@@ -1,5 +1,6 @@
 import Driver.Util
 import HeimdallModel.Spec.Pipeline
+import HeimdallModel.Model.HttpChain
 -- @family pipeline
 /-! Line-protocol family `pipeline` (C01): one rule / default rule with a scripted outcome vector, answered by the
 model of the three entry points (`Heimdall.Pipeline.serve`) and by the specification (`expectedPositive`). -/
@@ -76,7 +77,16 @@ def docOf (j : Json) : E RuleDoc := do
 def optDoc (c : Json) (k : String) : E (Option RuleDoc) := do
   if isNull c k then pure none else pure (some (← docOf (← fld c k)))
 
-def cfgOf (c : Json) : Cfg :=
+/-- `cfg.cors`: `{"origins": [...], "methods": [...] | null, "creds": bool}` (null = not configured); an absent
+method list is rs/cors' default GET, POST, HEAD -/
+def corsOf (j : Json) : E (Option Cors) := do
+  if isNull j "cors" then return none
+  let c ← fld j "cors"
+  let origins ← if isNull c "origins" then pure [] else strs c "origins"
+  let allowsGet ← if isNull c "methods" then pure true else do pure ((← strs c "methods").contains "GET")
+  pure (some { origins := origins.map String.toLower, allowsGet := allowsGet, allowCredentials := boolD c "creds" false })
+
+def cfgBase (c : Json) : Cfg :=
   let j := fldD c "cfg" (Json.mkObj [])
   { accepted := natD j "accepted" 0, argument := natD j "argument" 0, authn := natD j "authn" 0,
     authz := natD j "authz" 0, comm := natD j "comm" 0, internal := natD j "internal" 0,
@@ -87,6 +97,10 @@ def cfgOf (c : Json) : Cfg :=
       | "info" => .info
       | "warn" => .warn
       | _ => .disabled }
+
+def cfgOf (c : Json) : E Cfg := do
+  let cors ← corsOf (fldD c "cfg" (Json.mkObj []))
+  pure { cfgBase c with cors := cors }
 
 /-- content negotiation of `formatter.go` for the `Accept` values the generator uses: absent header, wildcards and
 the four supported media types are acceptable; other types and malformed values are not -/
@@ -100,13 +114,14 @@ def negotiableAccept (c : Json) : E Bool := do
 
 def traceJson (c : Ctx) : Json := jstrs c.trace
 
-/-- the same shape the Go harness prints -/
-def respJson (ep : EntryPoint) (rp : Reply) (c : Ctx) : Json :=
+/-- the same shape the Go harness prints; `pre` = the watched response headers set in front of the service handler -/
+def respJson (ep : EntryPoint) (rp : Reply) (c : Ctx) (pre : List String) : Json :=
   match ep, rp.resp with
   | .proxy, .http s f =>
     Json.mkObj [("status", jnat s), ("hits", jnat (if f then 1 else 0)), ("relayed", Json.bool f),
-                ("errbody", Json.bool rp.errorBody), ("trace", traceJson c)]
-  | _, .http s _ => Json.mkObj [("status", jnat s), ("errbody", Json.bool rp.errorBody), ("trace", traceJson c)]
+                ("errbody", Json.bool rp.errorBody), ("trace", traceJson c), ("pre", jstrs pre)]
+  | _, .http s _ => Json.mkObj [("status", jnat s), ("errbody", Json.bool rp.errorBody), ("trace", traceJson c),
+                                ("pre", jstrs pre)]
   | _, .checkOk =>
     Json.mkObj [("code", jnat 0), ("http", jnat 0), ("ok", Json.bool true), ("body", Json.bool false),
                 ("trace", traceJson c)]
@@ -136,13 +151,16 @@ def epName : EntryPoint → String
   | .envoy => "envoy"
 
 def run (c : Json) : E Json := do
-  let cfg := cfgOf c
+  let cfg ← cfgOf c
   let dflt ← optDoc c "default"
   let rule ← optDoc c "rule"
   let hit := boolD c "hit" true
   let up := natD c "upstream" 200
   let up := if up = 0 then 200 else up
-  let view : ReqView := { negotiable := ← negotiableAccept c }
+  let rq := fldD c "req" (Json.mkObj [])
+  let origin ← if isNull rq "origin" then pure none else do pure (some (← str rq "origin").toLower)
+  let view : ReqView := { negotiable := ← negotiableAccept c, origin := origin,
+                          preflight := boolD rq "preflight" false }
   let mut res : List (String × Json) := []
   let mut spec : List (String × Json) := []
   let mut stats : List (String × Json) := []
@@ -153,15 +171,18 @@ def run (c : Json) : E Json := do
       stats := stats ++ [(epName ep, jstr "rejected")]
     | some repo =>
       let found := repo.find hit
-      let (rp, ctx) := serve ep cfg view up found
+      -- the whole chain (CORS middleware of the proxy in front of the service handler); equal to `serve` unless the
+      -- middleware answers a preflight request (`c01_chain_is_handler`)
+      let (rp, ctx) := serveChain ep cfg view up found
       let r := rp.resp
-      res := res ++ [(epName ep, respJson ep rp ctx)]
+      res := res ++ [(epName ep, respJson ep rp ctx (frontHeaders ep cfg view))]
       spec := spec ++ [(epName ep, Json.mkObj [
         ("expected_positive", Json.bool (expectedPositive ep found)),
         ("model_positive", Json.bool r.positive),
         ("model_success", Json.bool r.success),
-        ("hyp", Json.bool (cfg.errorCodesNonSuccess && redirectsNonSuccess found))])]
-      stats := stats ++ [(epName ep, jstr (branchOf found))]
+        ("preflight_answered", Json.bool (preflightAnswered ep cfg view)),
+        ("hyp", Json.bool (cfg.errorCodesNonSuccess && redirectsNonSuccess found && !preflightAnswered ep cfg view))])]
+      stats := stats ++ [(epName ep, jstr (if preflightAnswered ep cfg view then "preflight-answered" else branchOf found))]
   return Json.mkObj [("res", Json.mkObj res), ("spec", Json.mkObj spec), ("stats", Json.mkObj stats)]
 
 end Driver.Pipeline
